@@ -292,10 +292,10 @@ Section Shift.
     destruct (match prev with Some m => Some m | None => parse_marker line end) as [[[[ind pre_] leader] content]|]; [|reflexivity].
     destruct (is_blank content).
     - destruct (count_blank r); [|reflexivity].
-      destruct (item_loop types r _ [] 1%nat 0%nat) as [[buf taken] nm].
+      destruct (item_loop types _ r _ [] 1%nat 0%nat) as [[buf taken] nm].
       replace (ln + d + 1) with (ln + 1 + d) by lia. rewrite rec_shift.
       destruct (rec buf (ln + 1) st) as [[es lo] st']. reflexivity.
-    - destruct (item_loop types r _ [content] 1%nat 0%nat) as [[buf taken] nm].
+    - destruct (item_loop types _ r _ [content] 1%nat 0%nat) as [[buf taken] nm].
       rewrite rec_shift. destruct (rec buf ln st) as [[es lo] st']. reflexivity.
   Qed.
 
